@@ -91,7 +91,8 @@ def run_case(case):
     m = rng.choice([1, 2])
     d = rng.choice([2, 3])
     B = rng.choice([1, 3])
-    base = zoo.cell_sde(cell, d=d, m=m, seed=rng.randrange(10 ** 6), gscale=0.7)
+    # (element-wise diffusion with components of either sign; additive diffusion that differs between batch rows)
+    base = zoo.cell_sde(cell, d=d, m=m, seed=rng.randrange(10 ** 6), gscale=0.7, signed=True, batch_varying=True)
     if nt in ("general", "scalar"):
         # keep the diffusion well-conditioned (full column rank): add a fixed tall identity-like block
         g_orig = base.g
